@@ -151,7 +151,7 @@ def C16():
         assumptions=["FigureOnly / EncodeFigure use rtf_read_figure through its contract (unit ReadFigure: one (bytes, format) per path, in order); "
                      "open(path,'rb') / f.read() and Path.exists are assumed file-system contracts (unit ReadImageData binds path, mode and the whole-file read); the appended parts of _encode_figure_only are observed through a handler on "
                      "parts.append (the function only appends)"],
-        replayers={"services/figure_service.py::RTFFigureService": R.replay_figures, "encoding/unified_encoder.py::UnifiedRTFEncoder._encode_figure_only": R.replay_figure_document, "figure.py::": R.replay_figure_document, "figure.py::_read_image_data": R.replay_figures, "input.py::": R.replay_validators},
+        replayers={"services/figure_service.py::RTFFigureService": R.replay_figures, "encoding/unified_encoder.py::UnifiedRTFEncoder._encode_figure_only": R.replay_figure_document, "figure.py::": R.replay_figure_document, "figure.py::_read_image_data": R.replay_figures, "input.py::": R.replay_figures},
         design_ref="4/C16, A19",
     )
 
@@ -201,11 +201,12 @@ def C18():
         technique="effect-trace contracts on the real write_rtf/write_docx/write_html/write_pdf bodies with a raise point injected at the "
                   "encode and conversion calls (before, after output, malformed result); trace obligations per exit path",
         trusted_base=[SOLVERS, ENGINE, "pathlib / tempfile.TemporaryDirectory / shutil.move assumed contracts (DESIGN 1.7)",
-                      "converter contract: writes only under output_dir and returns its result path"],
+                      "converter contract: writes only under output_dir and returns its result path; a failed converter process raises (unit ConvertSingleFile: "
+                      "a result only after exit status 0 and an existing output file); subprocess.run(check=True) raises exactly on a non-zero status"],
         assumptions=["faults are injected at the encoding and conversion calls (the property's 'encoding or conversion fails'), not inside "
                      "mkdir/write_text/shutil.move; write_html's second move (resources folder) after a successful first move is outside the clause",
                      "rtf_encode() itself performs no file-system write (frame scan: separate unit, not yet in this check)"],
-        replayers={"encode.py::RTFDocument.write_": R.replay_exports},
+        replayers={"encode.py::RTFDocument.write_": R.replay_exports, "convert.py::": R.replay_converter},
         design_ref="4/C18, A21",
     )
 
@@ -364,9 +365,11 @@ def C05():
     from contracts.renderer import RenderBody
     from contracts.headers import SublineHeader
     from contracts.spanning import EncodeSpanningRow
-    from contracts.replay_docs import replayer as D
+    from contracts.replay_docs import replayer as D, replayer_any as DA
+    from contracts.validators_doc import BodyKeysValidator
     return Property(
-        "C05", units=[ContractUnit(RenderBody()), ContractUnit(SublineHeader()), ContractUnit(EncodeSpanningRow()), _render_unit(quick=("groups1",))]
+        "C05", units=[ContractUnit(RenderBody()), ContractUnit(SublineHeader()), ContractUnit(EncodeSpanningRow()), _render_unit(quick=("groups1",)),
+                      ContractUnit(BodyKeysValidator())]
         + _strategy_units(), level="proof",
         technique="ghost heading state (displayed value and position per page_by level) in the loop invariant of the real PageRenderer._render_body, "
                   "inner level loop unrolled for the property's 1-3 levels; obligations at every row emission",
@@ -374,7 +377,9 @@ def C05():
         assumptions=["str() injective on non-null keys; a non-null key's text is not the literal 'None'",
                      "render step 7 (page-top headings) is under contract for 1 level in the quick tier and 2 levels in the thorough tier; that "
                      "pageby_header_info carries the first row's values is the strategies' contract (GetGroupHeaders)"],
-        replayers={"encoding/renderer.py::PageRenderer._render_body": D("headings")}, design_ref="4/C05, A7")
+        replayers={"encoding/renderer.py::": DA(["headings", "heading_count"]), "pagination/": DA(["headings", "heading_count"]),
+                   "encoding/unified_encoder.py::": DA(["headings", "heading_count"]), "services/encoding_service.py::": DA(["headings", "heading_count"]),
+                   "input.py::": DA(["headings", "heading_count"])}, design_ref="4/C05, A7")
 
 
 def C07():
